@@ -2,6 +2,7 @@ package main
 
 import (
 	"bufio"
+	"encoding/hex"
 	"fmt"
 	"os"
 	"strconv"
@@ -67,4 +68,128 @@ func runOrder(inPath, outPath string) error {
 		fmt.Fprintf(w, "%s %s\n", s, strings.Join(res, " "))
 	}
 	return sc.Err()
+}
+
+// runSearch: direct differential test of the twelve binary-search helpers.
+// Input: "TYPE <t>", "KEYS ...", then "Q <key> <v1> <v2> ..." with keys as class.tag.
+func runSearch(inPath, outPath string) error {
+	in, err := os.Open(inPath)
+	if err != nil {
+		return err
+	}
+	defer in.Close()
+	out, err := os.Create(outPath)
+	if err != nil {
+		return err
+	}
+	w := bufio.NewWriter(out)
+	defer func() { w.Flush(); out.Close() }()
+	sc := bufio.NewScanner(in)
+	sc.Buffer(make([]byte, 1<<20), 1<<26)
+	typ := ""
+	var lits []string
+	n := 0
+	for sc.Scan() {
+		line := sc.Text()
+		switch {
+		case strings.HasPrefix(line, "TYPE "):
+			typ = strings.Fields(line)[1]
+		case strings.HasPrefix(line, "KEYS"):
+			lits = strings.Fields(line)[1:]
+		case strings.HasPrefix(line, "Q "):
+			f := strings.Fields(line)[1:]
+			ge, le, err := searchBoth(typ, lits, f[0], f[1:])
+			if err != nil {
+				return err
+			}
+			fmt.Fprintf(w, "%d ge=%s le=%s\n", n, ge, le)
+			n++
+		}
+	}
+	return sc.Err()
+}
+
+func guard(f func() int) (s string) {
+	defer func() {
+		if r := recover(); r != nil {
+			s = "panic=" + panicCode(r)
+		}
+	}()
+	return strconv.Itoa(f())
+}
+
+func searchBoth(typ string, lits []string, key string, vals []string) (string, string, error) {
+	switch typ {
+	case "int32":
+		toK, _, err := tableKeys(lits, func(s string) (int32, error) { v, e := strconv.ParseInt(s, 10, 32); return int32(v), e }, func(a, b int32) bool { return a < b })
+		if err != nil {
+			return "", "", err
+		}
+		k := toK(parseKey(key))
+		vs := make([]int32, len(vals))
+		for i, v := range vals {
+			vs[i] = toK(parseKey(v))
+		}
+		return guard(func() int { return g.VerifInt32SearchGE(k, vs) }), guard(func() int { return g.VerifInt32SearchLE(k, vs) }), nil
+	case "int64":
+		toK, _, err := tableKeys(lits, func(s string) (int64, error) { return strconv.ParseInt(s, 10, 64) }, func(a, b int64) bool { return a < b })
+		if err != nil {
+			return "", "", err
+		}
+		k := toK(parseKey(key))
+		vs := make([]int64, len(vals))
+		for i, v := range vals {
+			vs[i] = toK(parseKey(v))
+		}
+		return guard(func() int { return g.VerifInt64SearchGE(k, vs) }), guard(func() int { return g.VerifInt64SearchLE(k, vs) }), nil
+	case "uint32":
+		toK, _, err := tableKeys(lits, func(s string) (uint32, error) { v, e := strconv.ParseUint(s, 10, 32); return uint32(v), e }, func(a, b uint32) bool { return a < b })
+		if err != nil {
+			return "", "", err
+		}
+		k := toK(parseKey(key))
+		vs := make([]uint32, len(vals))
+		for i, v := range vals {
+			vs[i] = toK(parseKey(v))
+		}
+		return guard(func() int { return g.VerifUint32SearchGE(k, vs) }), guard(func() int { return g.VerifUint32SearchLE(k, vs) }), nil
+	case "uint64":
+		toK, _, err := tableKeys(lits, func(s string) (uint64, error) { return strconv.ParseUint(s, 10, 64) }, func(a, b uint64) bool { return a < b })
+		if err != nil {
+			return "", "", err
+		}
+		k := toK(parseKey(key))
+		vs := make([]uint64, len(vals))
+		for i, v := range vals {
+			vs[i] = toK(parseKey(v))
+		}
+		return guard(func() int { return g.VerifUint64SearchGE(k, vs) }), guard(func() int { return g.VerifUint64SearchLE(k, vs) }), nil
+	case "string":
+		toK, _, err := tableKeys(lits, func(s string) (string, error) {
+			if s == "-" {
+				return "", nil
+			}
+			b, e := hex.DecodeString(s)
+			return string(b), e
+		}, func(a, b string) bool { return a < b })
+		if err != nil {
+			return "", "", err
+		}
+		k := toK(parseKey(key))
+		vs := make([]string, len(vals))
+		for i, v := range vals {
+			vs[i] = toK(parseKey(v))
+		}
+		return guard(func() int { return g.VerifStringSearchGE(k, vs) }), guard(func() int { return g.VerifStringSearchLE(k, vs) }), nil
+	case "comparable":
+		pk := parseKey(key)
+		k := g.Comparable(ckey{cls: pk.cls, tag: pk.tag})
+		vs := make([]g.Comparable, len(vals))
+		for i, v := range vals {
+			p := parseKey(v)
+			vs[i] = ckey{cls: p.cls, tag: p.tag}
+		}
+		return guard(func() int { return g.VerifComparableSearchGE(k, vs) }), guard(func() int { return g.VerifComparableSearchLE(k, vs) }), nil
+	}
+	return "", "", fmt.Errorf("unknown type %s", typ)
 }
